@@ -221,9 +221,16 @@ class Report:
                     out_lines.append("KNOWN-FINDING: property=%s %s" % (self.prop, k["what"]))
                 continue
             path = write_replay(self.prop, "violation", f.replay)
-            out_lines.append("VIOLATION property=%s replay=%s" % (self.prop, path))
-            self.notes.append("violation: " + f.what)
             violations += 1
+            self.notes.append("violation: " + f.what)
+            line = "VIOLATION property=%s replay=%s" % (self.prop, path)
+            if line in out_lines:
+                continue                      # two symptoms of one replay
+            if sum(1 for l in out_lines if l.startswith("VIOLATION")) >= 12:
+                more_violations = getattr(self, "_more", 0) + 1
+                self._more = more_violations
+                continue
+            out_lines.append(line)
         for entry, reproduced in self.known_replayed:
             if reproduced and entry["signature"] not in seen_known:
                 seen_known.add(entry["signature"])
@@ -259,6 +266,8 @@ class Report:
         write_evidence(self.prop, self.tier, self.seed, cov, TRUSTED_BASE, wall, violations)
         for l in out_lines:
             print(l)
+        if getattr(self, "_more", 0):
+            print("NOTE: %d further violations of %s were found in this run (replays written, listed in the evidence notes)" % (self._more, self.prop))
         print("%s %s seed=%d: obligations %d/%d, evaluations %s, disagreements %d, violations %d, %.1fs" % (
             self.prop, self.tier, self.seed, cov["discharged"], cov["obligations"], cov.get("evaluations"),
             len(self.disagreements), violations, wall))
